@@ -21,6 +21,7 @@ package main
 //@     invariant opts != nil && opts == old(opts) && opts.IPFIXUDPSize >= 0 && buf != nil && i != nil && cap(msg.body) >= opts.IPFIXUDPSize
 //@     step [once] sends_ipfixMQCh <= iter(sends_ipfixMQCh) + 1
 //@     step [records] sends_ipfixMQCh == iter(sends_ipfixMQCh) + 1 ==> decodedMsg != nil && len(decodedMsg.DataSets) > 0
+//@     step [published] decodedMsg != nil && len(decodedMsg.DataSets) > 0 && err == nil && !full_ipfixMQCh ==> sends_ipfixMQCh == iter(sends_ipfixMQCh) + 1   // exactly one message when there are records, the encoder succeeds and the queue has room
 //@     step [decoded] (decodedMsg != nil ==> i.stats.DecodedCount == (iter(i.stats.DecodedCount) + 1) % 18446744073709551616) && (decodedMsg == nil ==> i.stats.DecodedCount == iter(i.stats.DecodedCount))
 
 //@ chaninv netflowV9UDPCh m: m.raddr != nil && len(m.body) <= 65507 && cap(m.body) >= opts.NetflowV9UDPSize && opts != nil && opts.NetflowV9UDPSize >= 0 && wellFormed9(mCacheNF9)
@@ -37,6 +38,7 @@ package main
 //@     invariant opts != nil && opts == old(opts) && opts.NetflowV9UDPSize >= 0 && buf != nil && i != nil && cap(msg.body) >= opts.NetflowV9UDPSize
 //@     step [once] sends_netflowV9MQCh <= iter(sends_netflowV9MQCh) + 1
 //@     step [records] sends_netflowV9MQCh == iter(sends_netflowV9MQCh) + 1 ==> decodedMsg != nil && decodedMsg.DataSets != nil
+//@     step [published] decodedMsg != nil && decodedMsg.DataSets != nil && err == nil && !full_netflowV9MQCh ==> sends_netflowV9MQCh == iter(sends_netflowV9MQCh) + 1
 //@     step [decoded] (decodedMsg != nil ==> i.stats.DecodedCount == (iter(i.stats.DecodedCount) + 1) % 18446744073709551616) && (decodedMsg == nil ==> i.stats.DecodedCount == iter(i.stats.DecodedCount))
 
 //@ chaninv netflowV5UDPCh m: m.raddr != nil && len(m.body) <= 65507 && cap(m.body) >= opts.NetflowV5UDPSize && opts != nil && opts.NetflowV5UDPSize >= 0
@@ -52,6 +54,7 @@ package main
 //@   loop 1
 //@     invariant opts != nil && opts == old(opts) && opts.NetflowV5UDPSize >= 0 && buf != nil && i != nil && cap(msg.body) >= opts.NetflowV5UDPSize
 //@     step [once] sends_netflowV5MQCh <= iter(sends_netflowV5MQCh) + 1
+//@     step [published] decodedMsg != nil && decodedMsg.Flows != nil && err == nil && !full_netflowV5MQCh ==> sends_netflowV5MQCh == iter(sends_netflowV5MQCh) + 1
 //@     step [decoded] (decodedMsg != nil ==> i.stats.DecodedCount == (iter(i.stats.DecodedCount) + 1) % 18446744073709551616) && (decodedMsg == nil ==> i.stats.DecodedCount == iter(i.stats.DecodedCount))
 
 //@ chaninv sFlowUDPCh m: m.raddr != nil && len(m.body) <= 65507 && len(m.body) <= opts.SFlowUDPSize && cap(m.body) >= opts.SFlowUDPSize && opts != nil && opts.SFlowUDPSize >= 0
@@ -69,6 +72,7 @@ package main
 //@   loop 1
 //@     invariant opts != nil && opts == old(opts) && opts.SFlowUDPSize >= 0 && s != nil
 //@     step [once] sends_sFlowMQCh <= iter(sends_sFlowMQCh) + 1
+//@     step [published] datagram != nil && (len(datagram.Counters) >= 1 || len(datagram.Samples) >= 1) && err == nil && !full_sFlowMQCh ==> sends_sFlowMQCh == iter(sends_sFlowMQCh) + 1
 //@     step [decoded] s.stats.DecodedCount == iter(s.stats.DecodedCount) || s.stats.DecodedCount == (iter(s.stats.DecodedCount) + 1) % 18446744073709551616
 //@     step [both] sends_sFlowMQCh == iter(sends_sFlowMQCh) + 1 ==> s.stats.DecodedCount == (iter(s.stats.DecodedCount) + 1) % 18446744073709551616
 
